@@ -57,7 +57,8 @@ def check_out(xs, k, boundary, out, what):
             return '%s: output[%d] = %r, the renormalised weighted mean of the window is %r (input %r, kernel %r, boundary filtered: %r)' % (what, i, a, b, xs, k, boundary)
         if a is not None and (boundary or D <= i < n - D) and all(w >= 0 for w in k):
             win = [xs[p] for p in range(max(0, i - D), min(n, i + D + 1)) if xs[p] is not None]
-            if win and not (min(win) - 1e-9 <= a <= max(win) + 1e-9):
+            tol = 1e-9 * (1 + max(abs(v) for v in win)) if win else 0
+            if win and not (min(win) - tol <= a <= max(win) + tol):
                 return '%s: output[%d] = %r lies outside the window range [%r, %r]' % (what, i, a, min(win), max(win))
     return None
 
@@ -79,6 +80,12 @@ def gen_list(rng, n, tier):
             xs = sorted(rng.choice([0, 1, 2, -3, 7, 0.5, 2.25]) for _ in range(m))   # monotone
         else:
             xs = [(None if rng.random() < 0.22 else float(rng.choice([0, 1, 2, -3, 7, 0.5, 2.25, 0.1]))) for _ in range(m)]
+        r2 = rng.random()
+        if r2 < 0.06:                               # the same signal / the same weights in a huge or tiny unit (exact powers of two): a weighted mean does not depend on either
+            xs = [None if v is None else v * 2.0 ** 1020 for v in xs]
+        elif r2 < 0.12:
+            sc = rng.choice([2.0 ** 1000, 2.0 ** -1073, 2.0 ** -500])
+            k = [w * sc for w in k]
         out.append({'x': xs, 'k': k})
     return out
 
@@ -94,8 +101,8 @@ def run_list(case):
 
 
 def coq_list_case(case, obs):
-    if 'exc' in obs:
-        return None
+    if 'exc' in obs or any(v is not None and abs(v) == float('inf') for v in obs['out']):
+        return None                               # an infinity is not a value of the rational model: left to the oracle
     return '(%s, %s, %s)' % (coq_list(optq(v) for v in case['x']), coq_list(q(v) for v in case['k']), coq_list(optq(v) for v in obs['out']))
 
 
